@@ -215,7 +215,14 @@ pub fn generate(prop: &str, seed: u64, tier: &str, out: &mut dyn std::io::Write)
             }
         };
         for k in 0..per {
-            let cfg = gen_cfg(&mut r, &t);
+            let mut cfg = gen_cfg(&mut r, &t);
+            // the writer may have served requests before (same configuration, same target): side stream
+            {
+                let mut r3 = Rng::for_case(seed, 191, i * 16 + k as u64);
+                if r3.chance(1, 4) {
+                    cfg.pre_dumps = r3.range(1, 2) as usize;
+                }
+            }
             // sometimes the blamed thread is already traced by somebody else: it cannot be attached
             let mut tracer = None;
             if r.chance(1, 8) && t.threads.iter().any(|x| x.tid == cfg.blamed) && t.threads.len() > 1 {
